@@ -179,6 +179,8 @@ func hiddenCarriers(g *PageGen) []string {
 			"<figure>"+g.img()+"<figcaption>"+g.words(4)+" "+mk()+` <a href="`+g.linkURL()+`">`+g.words(1)+"</a></figcaption></figure>",
 			"<figure>"+g.img()+mk()+"<figcaption>"+g.words(4)+"</figcaption></figure>",
 			"<blockquote><p>"+g.words(25)+"</p>"+mk()+"</blockquote>",
+			`<picture><source srcset="`+g.mediaURL("webp")+` 1x">`+mk()+`<img src="`+g.mediaURL("jpg")+`">`+mk()+"</picture>",
+			"<figure><picture>"+mk()+`<img src="`+g.mediaURL("jpg")+`"></picture><figcaption>`+g.words(3)+"</figcaption></figure>",
 			"<div>"+g.words(25)+mk()+g.words(10)+"</div>",
 		)
 	}
@@ -192,12 +194,15 @@ func runC04(ctx *Ctx) {
 	defer on.run(ctx)
 	mr := newCorr("mediarender")
 	defer mr.run(ctx)
+	ix := newCorr("imageextract")
+	defer ix.run(ctx)
 	ctx.Rep.Rule = "each hiding technique (script, style, head, comment, hidden attribute, display:none, visibility:hidden/collapse, aria-hidden, form controls, noscript, svg, object, unrecognised iframe) in each carrier (top level, paragraph, list item, data-table cell, figure, figcaption, blockquote, bare div) between long retained paragraphs; distinct by structure; non-trivial = the page contains hidden words and retains visible ones"
 	contentRun{id: "C04", n: [2]int{150, 6000}, url: pageURL,
 		corr: func(ctx *Ctx, x *distilled, replay interface{}) {
 			pc.add(ctx, x.D, x.Root, true, replay)
 			addOutputNodesCase(on, x.Src, replay)
 			addMediaRenderCases(mr, ctx.Rep, x.Src, pageURL, replay)
+			addImageExtractCases(ix, ctx.Rep, x.Src, pageURL, replay)
 		},
 		weights: []W{{"para", 30}, {"hidden", 15}, {"script", 12}, {"form", 10}, {"list", 6}, {"datatable", 8}, {"figure", 8}, {"embed", 4}, {"quote", 4}, {"divwrap", 6}, {"links", 3}},
 		extra: func(ctx *Ctx, i int, r *Rng) []string {
@@ -346,6 +351,19 @@ func runC09(ctx *Ctx) {
 	defer do.run(ctx)
 	mr := newCorr("mediarender")
 	defer mr.run(ctx)
+	ix := newCorr("imageextract")
+	defer ix.run(ctx)
+	if ctx.Replay == "" {
+		// the image extractor and the rendering of what it produces, on pages built around the
+		// extractor's cases (model against implementation only)
+		for i := 0; i < ctx.pick(300, 10000); i++ {
+			r := newRng(ctx.Seed, fmt.Sprintf("C09/img/%d", i))
+			src := imagePage(r, newPageGen(r))
+			replay := pageReplay{HTML: src, URL: pageURL.String()}
+			addImageExtractCases(ix, ctx.Rep, src, pageURL, replay)
+			addMediaRenderCases(mr, ctx.Rep, src, pageURL, replay)
+		}
+	}
 	contentRun{id: "C09", n: [2]int{300, 12000}, url: pageURL,
 		extra: func(ctx *Ctx, i int, r *Rng) []string {
 			g := newPageGen(r)
@@ -357,6 +375,7 @@ func runC09(ctx *Ctx) {
 			addFiltersCase(fl, ctx.Rep, x.Src, pageURL, false, replay)
 			addRenderCases(tr, do, ctx.Rep, x.Src, pageURL, replay, 8)
 			addMediaRenderCases(mr, ctx.Rep, x.Src, pageURL, replay)
+			addImageExtractCases(ix, ctx.Rep, x.Src, pageURL, replay)
 		},
 		oracle: func(ctx *Ctx, x *distilled, replay interface{}) bool {
 			for _, l := range strings.Split(x.Res.Text, "\n") {
